@@ -110,6 +110,9 @@ pub struct Sim<'j> {
     pub server_dead_reason: Option<String>,
     pub event_log: Vec<String>,
     abstract_states: std::collections::HashSet<u64>,
+    /// client messages sent since the server was last quiescent
+    pub burst_len: u64,
+    pub max_burst_len: u64,
     keep_log: bool,
     quiescent_points: u64,
 }
@@ -337,6 +340,8 @@ impl<'j> Sim<'j> {
             server_dead_reason: None,
             event_log: vec![],
             abstract_states: std::collections::HashSet::new(),
+            burst_len: 0,
+            max_burst_len: 0,
             keep_log: job.want_trace,
             quiescent_points: 0,
         }
@@ -383,6 +388,10 @@ impl<'j> Sim<'j> {
     }
     pub fn server_alive_pub(&self) -> bool {
         self.server_alive()
+    }
+    /// Bytes delivered to the server's stdin that it has not read.
+    pub fn stdin_unread(&self) -> usize {
+        self.proc_.as_ref().map(|p| p.stdin.len()).unwrap_or(0)
     }
 
     /// Poll the server until it has nothing more to do without outside input.
@@ -451,8 +460,11 @@ impl<'j> Sim<'j> {
             return evs;
         }
         let seq = self.cfg.policy == Policy::Sequential;
+        // (only C09's sessions may flood the server with more messages than tower-lsp's request
+        // queue holds while it is busy: that is a recorded finding of C09, not the other checks' topic)
+        let flood_guard = self.job.prop != "C09" && self.burst_len >= 90;
         // a crash never waits for the server to be idle, under any policy
-        let wait = self.peek_entry().map(|e| !matches!(e.op, Op::Kill { .. }) && (e.wait_quiet || seq));
+        let wait = self.peek_entry().map(|e| !matches!(e.op, Op::Kill { .. }) && (e.wait_quiet || seq || flood_guard));
         match wait {
             Some(true) if quiet => evs.push(Ev::Send),
             Some(false) => evs.push(Ev::Send),
@@ -696,6 +708,8 @@ impl<'j> Sim<'j> {
                 oracle::on_send(self, json);
                 self.wire.extend(frame(json));
                 self.res.count("client_messages", 1);
+                self.burst_len += 1;
+                self.max_burst_len = self.max_burst_len.max(self.burst_len);
                 if !entry.wait_quiet {
                     self.res.count("sent_back_to_back", 1);
                 }
@@ -824,6 +838,7 @@ impl<'j> Sim<'j> {
             // quiescent point: only `send` is possible and the next entry waited for it
             if evs.len() == 1 && evs[0] == Ev::Send && self.server_alive() && self.client.initialized {
                 let waited = self.peeked.as_ref().map(|e| e.wait_quiet).unwrap_or(false) || self.cfg.policy == Policy::Sequential;
+                self.burst_len = 0;
                 if waited && self.cfg.check_intermediate {
                     self.quiescent_points += 1;
                     oracle::at_quiescence(self, false);
